@@ -27,11 +27,15 @@ pub struct SCfg {
     /// pairs: 0 = all pairs of all functions, k > 0 = every k-th right operand
     pub pair_stride: usize,
     pub cold_stride: usize,
+    /// 0 = all functions of n variables; 1 = cubes, clauses and all functions of <= 2 variables
+    pub pool: u8,
+    /// also check the semantic hash (64-bit field) of every result against the defining sum
+    pub hash: bool,
 }
 
 impl SCfg {
     pub fn json(&self) -> Value {
-        json!({"n": self.n, "vtree": self.vtree.show(), "compress": self.compress, "semantic": self.semantic, "table_cap": self.table_cap, "issue": self.issue, "ite_pool": self.ite_pool, "pair_stride": self.pair_stride, "cold_stride": self.cold_stride})
+        json!({"n": self.n, "vtree": self.vtree.show(), "compress": self.compress, "semantic": self.semantic, "table_cap": self.table_cap, "issue": self.issue, "ite_pool": self.ite_pool, "pair_stride": self.pair_stride, "cold_stride": self.cold_stride, "pool": self.pool, "hash": self.hash})
     }
     pub fn from_json(v: &Value) -> Option<SCfg> {
         Some(SCfg {
@@ -44,6 +48,8 @@ impl SCfg {
             ite_pool: v["ite_pool"].as_u64()? as usize,
             pair_stride: v["pair_stride"].as_u64()? as usize,
             cold_stride: v["cold_stride"].as_u64()? as usize,
+            pool: v["pool"].as_u64().unwrap_or(0) as u8,
+            hash: v["hash"].as_bool().unwrap_or(false),
         })
     }
     fn prop_fn(&self) -> &'static str {
@@ -107,6 +113,10 @@ struct Sw<'a, B: SddBuilder<'a>> {
     nodes_walked: u64,
     noncanonical_uncompressed: u64,
     cases: [u64; 4],
+    mat: Vec<usize>,
+    hmap: Option<(rsdd::repr::WmcParams<rsdd::util::semirings::FiniteField<{ primes::U64_LARGEST }>>, Vec<(u128, u128)>)>,
+    hash_memo: HashMap<TT, u128>,
+    hash_checks: u64,
 }
 
 impl<'a, B: SddBuilder<'a>> Sw<'a, B> {
@@ -233,6 +243,37 @@ impl<'a, B: SddBuilder<'a>> Sw<'a, B> {
             self.viol(pf, "wrong-function", format!("{:?} [{}] returned the function {:#x}, the definition gives {:#x}", op, self.cfg.json(), got, want), op);
         }
         let id = sdd_id(r);
+        if self.hmap.is_some() {
+            let p = primes::U64_LARGEST;
+            let want = match self.hash_memo.get(&got) {
+                Some(w) => *w,
+                None => {
+                    let w = crate::props::c11::defining_sum(got, self.n, &self.hmap.as_ref().unwrap().1, p);
+                    self.hash_memo.insert(got, w);
+                    w
+                }
+            };
+            let wneg = crate::props::c13::submod_ref(1, want, p);
+            let (map, _) = self.hmap.as_ref().unwrap();
+            let vm = self.b.vtree_manager();
+            let hs = guarded(|| {
+                (
+                    r.cached_semantic_hash(vm, map).value(),
+                    r.semantic_hash(map).value(),
+                    r.neg().cached_semantic_hash(vm, map).value(),
+                    r.neg().semantic_hash(map).value(),
+                )
+            });
+            self.hash_checks += 4;
+            match hs {
+                Ok((a, b2, c, d)) => {
+                    if a != want || b2 != want || c != wneg || d != wneg {
+                        self.viol("C11", "hash-not-denotational", format!("{:?} [{}]: result denotes {:#x} with defining sum {}; cached/recomputed hash = {}/{}, of the negation {}/{} (expected {})", op, self.cfg.json(), got, want, a, b2, c, d, wneg), op);
+                    }
+                }
+                Err(e) => self.viol("C11", "panic", format!("{:?}: hashing panicked: {}", op, e), op),
+            }
+        }
         if self.cfg.semantic {
             // the builder's equality must agree with function equality against the recorded
             // representative of this function (never judge two equal functions different)
@@ -275,7 +316,8 @@ impl<'a, B: SddBuilder<'a>> Sw<'a, B> {
 
     fn recheck_pool(&mut self) {
         let pf = self.cfg.prop_fn();
-        for t in 0..self.f.len() {
+        for k in 0..self.mat.len() {
+            let t = self.mat[k];
             let got = sdd_tt(self.f[t], self.n);
             self.rep.evaluations += 1;
             if got != t as TT {
@@ -445,34 +487,92 @@ fn sweep<'a, B: SddBuilder<'a>>(b: &'a B, cfg: &SCfg, ctx: &Ctx) -> Report {
         nodes_walked: 0,
         noncanonical_uncompressed: 0,
         cases: [0; 4],
+        mat: Vec::new(),
+        hmap: if cfg.hash {
+            let m = rsdd::repr::create_semantic_hash_map::<{ primes::U64_LARGEST }>(n);
+            let w = crate::props::c11::weights_of(&m, n);
+            Some((m, w))
+        } else {
+            None
+        },
+        hash_memo: HashMap::new(),
+        hash_checks: 0,
     };
     s.rep.exhaustive = true;
     s.canon.insert(tt::mask(n), (0, 0, false));
     s.canon.insert(0, (0, 0, true));
     let total = 1usize << (1usize << n);
-    // materialise every function (checked like any other result)
-    for t in 0..total {
+    // the functions used as operands: all of them, or a rule-defined pool
+    let mut dom: Vec<usize> = if cfg.pool == 0 {
+        (0..total).collect()
+    } else {
+        let mut v: Vec<usize> = vec![0, total - 1];
+        // cubes (products of literals) and clauses (their negations)
+        for code in 0..3usize.pow(n as u32) {
+            let mut c = code;
+            let mut t = tt::mask(n);
+            for x in 0..n {
+                match c % 3 {
+                    1 => t &= tt::var(x, n),
+                    2 => t &= tt::not(tt::var(x, n), n),
+                    _ => (),
+                }
+                c /= 3;
+            }
+            v.push(t as usize);
+            v.push(tt::not(t, n) as usize);
+        }
+        // every function of at most two variables
+        for a in 0..n {
+            for c in (a + 1)..n {
+                for t2 in 0..16u64 {
+                    let mut t = 0u64;
+                    for asg in 0..(1usize << n) {
+                        let i2 = ((asg >> a) & 1) | (((asg >> c) & 1) << 1);
+                        if (t2 >> i2) & 1 == 1 {
+                            t |= 1 << asg;
+                        }
+                    }
+                    v.push(t as usize);
+                }
+            }
+        }
+        v.sort();
+        v.dedup();
+        v
+    };
+    s.f = vec![SddPtr::PtrFalse; total];
+    // materialise every operand (checked like any other result)
+    for (k, &t) in dom.iter().enumerate() {
         let r = guarded(|| shannon(b, t as TT, 0, n, !cfg.semantic));
         let op = SOp::Materialise(t as TT);
         match r {
             Ok(p) => {
-                s.f.push(p);
+                s.f[t] = p;
                 s.check(Ok(p), t as TT, &op);
             }
             Err(e) => {
-                s.f.push(SddPtr::PtrFalse);
                 s.check(Err(e), t as TT, &op);
             }
         }
+        s.mat.push(t);
         if s.stop {
             break;
         }
-        if t % 4096 == 4095 && ctx.over_time() {
+        if k % 4096 == 4095 && ctx.over_time() {
             s.rep.cap("wall-clock cap while materialising functions");
             s.stop = true;
         }
     }
-    let perm = issue_perm(cfg.issue, total);
+    {
+        let k = cfg.issue % dom.len().max(1);
+        dom.rotate_left(k);
+        if cfg.issue % 2 == 1 {
+            dom.reverse();
+        }
+    }
+    let total = dom.len();
+    let perm: Vec<usize> = if cfg.pool == 0 { issue_perm(cfg.issue, total).into_iter().map(|i| dom[i]).collect() } else { dom.clone() };
     // semantic builder: eq must agree with function equality over a pool
     if cfg.semantic && !s.stop {
         let pool: Vec<usize> = perm.iter().cloned().step_by((total / 64).max(1)).collect();
@@ -607,6 +707,7 @@ fn sweep<'a, B: SddBuilder<'a>>(b: &'a B, cfg: &SCfg, ctx: &Ctx) -> Report {
     rep.add_extra("apply_case_descendant_a", s.cases[1]);
     rep.add_extra("apply_case_descendant_b", s.cases[2]);
     rep.add_extra("apply_case_independent", s.cases[3]);
+    rep.add_extra("semantic_hash_checks", s.hash_checks);
     rep.add_extra("configurations", 1);
     rep
 }
@@ -615,53 +716,70 @@ pub fn run_cfg(cfg: &SCfg, ctx: &Ctx) -> Report {
     with_sdd_builder!(cfg, |b| sweep(&b, cfg, ctx))
 }
 
-pub fn configs(ctx: &Ctx, semantic: bool) -> Vec<SCfg> {
+pub fn configs(ctx: &Ctx, semantic: bool, hash: bool) -> Vec<SCfg> {
     let mut out = Vec::new();
     let quick = ctx.tier == Tier::Quick;
-    // n = 3: every vtree
+    let base = SCfg { n: 3, vtree: VT::Leaf(0), compress: true, semantic, table_cap: 2, issue: 0, ite_pool: 16, pair_stride: 0, cold_stride: 0, pool: 0, hash };
+    let modes: Vec<bool> = if semantic { vec![false] } else { vec![true, false] };
+    // n = 3: every vtree, every function, every ordered pair
     for (i, vt) in all_vtrees(3).into_iter().enumerate() {
-        for compress in if semantic { vec![false] } else { vec![true, false] } {
-            out.push(SCfg { n: 3, vtree: vt.clone(), compress, semantic, table_cap: 2, issue: i + ctx.seed as usize, ite_pool: if quick { 16 } else { 48 }, pair_stride: 0, cold_stride: if quick { 997 } else { 211 } });
+        for &compress in modes.iter() {
+            out.push(SCfg { vtree: vt.clone(), compress, issue: i + ctx.seed as usize, ite_pool: if quick { 16 } else { 48 }, cold_stride: if quick { 997 } else { 211 }, ..base.clone() });
         }
     }
     // default table capacity: right-linear, left-linear, balanced
-    for (i, s) in ["(0 (1 2))", "((0 1) 2)", "(1 (0 2))"].iter().enumerate() {
-        out.push(SCfg { n: 3, vtree: VT::parse(s).unwrap(), compress: true, semantic, table_cap: 0, issue: i, ite_pool: 12, pair_stride: 0, cold_stride: 0 });
-    }
-    // n = 2 and n = 1
-    for vt in all_vtrees(2) {
-        for compress in if semantic { vec![false] } else { vec![true, false] } {
-            out.push(SCfg { n: 2, vtree: vt.clone(), compress, semantic, table_cap: 2, issue: 0, ite_pool: 16, pair_stride: 0, cold_stride: 7 });
+    if !hash {
+        for (i, s) in ["(0 (1 2))", "((0 1) 2)", "(1 (0 2))"].iter().enumerate() {
+            out.push(SCfg { vtree: VT::parse(s).unwrap(), table_cap: 0, issue: i, ite_pool: 12, ..base.clone() });
         }
     }
-    // n = 4
+    // n = 2
+    for vt in all_vtrees(2) {
+        for &compress in modes.iter() {
+            out.push(SCfg { n: 2, vtree: vt.clone(), compress, cold_stride: 7, ..base.clone() });
+        }
+    }
+    // n = 4, operand pool (cubes, clauses, all functions of <= 2 variables): every ordered pair
+    // on every one of the 120 vtrees
+    for (i, vt) in all_vtrees(4).into_iter().enumerate() {
+        for &compress in modes.iter() {
+            if quick && !compress && !semantic && i % 4 != 0 {
+                continue;
+            }
+            out.push(SCfg { n: 4, vtree: vt.clone(), compress, issue: i + ctx.seed as usize, ite_pool: 10, pool: 1, ..base.clone() });
+        }
+    }
+    // n = 4, all 65 536 functions with a stride over the pairs
     let v4 = all_vtrees(4);
     if quick {
-        // a rule-defined slice: every 10th vtree, every 41st pair
-        for (i, vt) in v4.into_iter().enumerate().filter(|(i, _)| i % 10 == 0) {
-            out.push(SCfg { n: 4, vtree: vt, compress: !semantic && i % 20 == 0, semantic, table_cap: 2, issue: i, ite_pool: 8, pair_stride: 4099, cold_stride: 0 });
+        if !hash {
+            for (i, vt) in v4.into_iter().enumerate().filter(|(i, _)| i % 20 == 3) {
+                out.push(SCfg { n: 4, vtree: vt, compress: !semantic && i % 40 == 3, issue: i, ite_pool: 8, pair_stride: 4099, ..base.clone() });
+            }
         }
     } else {
         for (i, vt) in v4.into_iter().enumerate() {
-            for compress in if semantic { vec![false] } else { vec![true, false] } {
-                out.push(SCfg { n: 4, vtree: vt.clone(), compress, semantic, table_cap: 2, issue: i, ite_pool: 12, pair_stride: 257, cold_stride: 0 });
+            for &compress in modes.iter() {
+                out.push(SCfg { n: 4, vtree: vt.clone(), compress, issue: i, ite_pool: 12, pair_stride: 257, ..base.clone() });
             }
         }
-        // n = 5: right-linear, left-linear, balanced; unary operations and a thin pair slice are
-        // not attempted (2^32 functions): covered through C05's compilations instead
     }
     out
 }
 
 pub fn run_all(ctx: &Ctx, semantic: bool) -> Report {
+    run_all_h(ctx, semantic, false)
+}
+
+pub fn run_all_h(ctx: &Ctx, semantic: bool, hash: bool) -> Report {
     let mut rep = Report::new(
         "SDD-builder histories on the real code against truth tables: per configuration (vtree x compression on/off x table capacity) all functions of n variables are built in one long-lived builder, every ordered pair (n = 3; a stride slice for n = 4) is combined by and/or/xor/iff, every function negated/conditioned/quantified, composed with every function on every variable, ite over a pool; every node reachable from every result is checked for the vtree normal form (compression on); a slice of operations is repeated in a cold builder and compared structurally; distinct = (configuration, operation, arguments)",
     );
-    let cfgs = configs(ctx, semantic);
+    let cfgs = configs(ctx, semantic, hash);
     let r = par_run(ctx, &cfgs, |_, c| run_cfg(c, ctx));
     rep.merge(r);
     rep.distinct_nontrivial = rep.transitions;
-    rep.bound("vtrees", json!({"n=3": "all 12", "n=2": "both", "n=4": if ctx.tier == Tier::Quick {"every 10th of 120, pair stride 4099"} else {"all 120, pair stride 257"}}));
+    rep.bound("vtrees", json!({"n=3": "all 12, all functions, all ordered pairs", "n=2": "both", "n=4 operand pool (cubes, clauses, functions of <= 2 variables), all ordered pairs": "all 120 vtrees", "n=4 all functions": if ctx.tier == Tier::Quick {"6 of 120 vtrees, pair stride 4099"} else {"all 120, pair stride 257"}}));
     rep.bound("compression", json!(if semantic {"n/a (semantic builder)"} else {"on and off"}));
     rep.sample(json!({"cfg": {"vtree": "((0 2) 1)", "compress": true, "table_cap": 2}, "ops": ["And(0x96, 0xe8)", "Compose(0xca, 1, 0x3c)", "Ite(0x1b, 0xd8, 0x27)"]}));
     for k in ["apply_case_same_vtree_node", "apply_case_descendant_a", "apply_case_descendant_b", "apply_case_independent"] {
